@@ -25,6 +25,13 @@ CLAIMS = {
                   "exhibit; they are covered only by AddressSanitizer/UBSan differential runs (testing, labelled as such).",
              design="4/C08", note=LEAF_NOTE + " The runtime half (memory safety, exception types) rests on sanitised execution of truncated, mutated and arbitrary streams; data-connection and TLS-handshake fault points are exercised by the protocol checks.",
              technique="Coq proof (termination by measure |buffer|+|unread|, cap invariant) + sanitised differential correspondence with fault injection at every stream position"),
+ "C19": dict(text="Theorems for every verb spelling (all case variants), every rest of line and every list of arbitrary byte-string "
+                  "arguments: case-insensitive recognition, only the 27 documented verbs are accepted, the supported quoting is "
+                  "inverted exactly. Totality of the logic is by construction (total function into option); that the C++ raises "
+                  "nothing but cmdline_exception is checked on every generated line. Model tied to parse_command by all 2^n "
+                  "case variants, near-miss verbs over all byte values, random lines and rendered argument lists.",
+             design="4/C19", note=LEAF_NOTE + " libstdc++ operator>> / std::quoted and boost::iequals (classic locale) are modelled, validated by the correspondence.",
+             technique="Coq proof (quoting inverse by induction, verb table by computation) + differential correspondence"),
  "C05": dict(text="Theorems for every byte string, every chunking of the source (internal buffer size and short reads), every "
                   "sequence of caller buffer sizes and every partition into write calls: upload output = to_crlf, download sink = "
                   "from_crlf with one final flush, LF-only text round-trips; model tied to the real converter classes by "
